@@ -417,3 +417,91 @@ def m_set_drop_behavior(I, path, args):
         n = str(getattr(b, 'path', b)).split('::')[-1]
         t.drop_behavior = n if n in names else ('?' + repr(b))
     return UNIT()
+
+
+# ----------------------------------------------------------------------------- prepared statements, batches (equivalent API forms)
+
+class Statement:
+    rust_type = 'Statement'
+
+    def __init__(self, conn, sql):
+        self.conn, self.sql = conn, sql
+
+
+@R.model(r'^Connection::(prepare|prepare_cached)$', r'^rusqlite::Connection::(prepare|prepare_cached)$')
+def m_prepare(I, path, args):
+    conn = deref(args[0])
+    parse(deref(args[1]))          # an unknown statement form is inconclusive already here
+    return Ok(Statement(conn, deref(args[1])))
+
+
+@R.model(r'^Statement::(query_row|execute|exists|insert)$', r'^rusqlite::Statement::(query_row|execute|exists|insert)$',
+         r'^CachedStatement::(query_row|execute|exists|insert)$')
+def m_statement(I, path, args):
+    st = deref(args[0])
+    if hasattr(st, 'deref_model') and not isinstance(st, Statement):
+        st = deref(st.deref_model(I))
+    meth = strip_generics_last(path)
+    conn = st.conn
+    if meth == 'query_row':
+        if _fault(I, 'query', False) == 'before':
+            return _err()
+        r = _query(I, conn, st.sql, args[1])
+        if isinstance(r, SqlError):
+            return Err(r)
+        if not r:
+            return Err(SqlError('QueryReturnedNoRows'))
+        return I.call_value(args[2], [mkref(Row(*r[0]))])
+    if meth == 'exists':
+        if _fault(I, 'query', False) == 'before':
+            return _err()
+        r = _query(I, conn, st.sql, args[1])
+        if isinstance(r, SqlError):
+            return Err(r)
+        return Ok(bool(r))
+    auto = conn.txn is None
+    f = _fault(I, 'execute', auto)
+    if f == 'before':
+        return _err()
+    r = _exec(I, conn, st.sql, args[1])
+    if isinstance(r, SqlError):
+        return Err(r)
+    if f == 'after':
+        return _err(msg='injected fault after the statement was auto-committed')
+    if f == 'stop' and auto:
+        raise ProcessStop()
+    return Ok(r)
+
+
+def strip_generics_last(path):
+    from ..parser import strip_generics
+    return strip_generics(path).split('::')[-1]
+
+
+@R.model(r'^Connection::execute_batch$', r'^rusqlite::Connection::execute_batch$')
+def m_execute_batch(I, path, args):
+    conn = deref(args[0])
+    sql = deref(args[1])
+    if not isinstance(sql, str):
+        raise Unsupported('execute_batch of ' + repr(sql)[:60])
+    for stmt in [x.strip() for x in sql.split(';') if x.strip()]:
+        auto = conn.txn is None
+        f = _fault(I, 'execute', auto)
+        if f == 'before':
+            return _err()
+        r = _exec(I, conn, stmt, PyVec([]))
+        if isinstance(r, SqlError):
+            return Err(r)
+        if f == 'after':
+            return _err(msg='injected fault after the statement was auto-committed')
+        if f == 'stop' and auto:
+            raise ProcessStop()
+    return Ok(UNIT())
+
+
+@R.model(r'^Transaction::rollback$', r'^rusqlite::Transaction::rollback$')
+def m_rollback(I, path, args):
+    t = deref(args[0])
+    t.done = True
+    t.conn.db.log.append('rollback')
+    return Ok(UNIT())
